@@ -9,6 +9,7 @@ C14 model driver. Requests:
 -/
 import DarsiaModel.Basic
 import DarsiaModel.SignalModels
+import DarsiaModel.KernelInterp
 open Darsia Darsia.Sig
 
 def pOptRat : P (Option Rat) := P.opt P.rat
@@ -106,7 +107,57 @@ def pThr : P String := do
     pure (" ".intercalate ((sig.zip mask).map fun (p, m) => showBool (thrHet lo hi m p)))
   | _ => failure
 
+/-! ### kernel interpolation state machine
+  kern <k0> <nops> op..   op: upd <k|none> <pts n x y z ..|none> <vals n v ..|none> <append 0|1> · ker k · vp n v..
+  -> `!Err@i` (first failing op) or `k | numSupports | x y z ; .. | v .. | W keyKernel ; x y z ; .. ; v ..` / `W none` -/
+
+open Darsia.Kern in
+def pPts : P (Option (List Pt)) := do
+  let t ← P.tok
+  if t = "none" then pure none else
+    if t = "pts" then do let n ← P.nat; let l ← P.rep (P.rep P.rat 3) n; pure (some l) else failure
+
+def pVals : P (Option (List Rat)) := do
+  let t ← P.tok
+  if t = "none" then pure none else
+    if t = "vals" then do let l ← P.list P.rat; pure (some l) else failure
+
+open Darsia.Kern in
+def pKOp : P KOp := do
+  let t ← P.tok
+  match t with
+  | "upd" => do
+    let k ← P.opt P.nat; let s ← pPts; let v ← pVals; let a ← P.bool
+    pure (.update k s v a)
+  | "ker" => do let k ← P.nat; pure (.updateKernel k)
+  | "vp" => do let l ← P.list P.rat; pure (.valuesParam l)
+  | _ => failure
+
+open Darsia.Kern in
+def showPts (l : List Pt) : String := " ; ".intercalate (l.map showRats)
+
+open Darsia.Kern in
+def runShow (st : KState) : List KOp → Nat → String
+  | [], _ =>
+    let w := match st.weights with
+      | none => "W none"
+      | some (key, vals) => s!"W {key.1} ; " ++ showPts key.2 ++ " ; " ++ showRats vals
+    s!"{st.kernel} | {st.numSupports} | " ++ (match st.supports with | some S => showPts S | none => "none") ++ " | "
+      ++ (match st.values with | some V => showRats V | none => "none") ++ " | " ++ w
+  | op :: ops, i =>
+    match step st op with
+    | .ok st' => runShow st' ops (i + 1)
+    | .error e => e.show ++ s!"@{i}"
+
+open Darsia.Kern in
+def pKern : P String := do
+  let k0 ← P.nat
+  let ops ← P.list pKOp
+  P.done
+  pure (runShow (init k0) ops 0)
+
 def dispatch : List String → Option String
+  | "kern" :: rest => (pKern.run rest).map (·.1)
   | "run" :: rest => (pRun.run rest).map (·.1)
   | "thr" :: rest => (pThr.run rest).map (·.1)
   | ["poly", d] => do
